@@ -271,6 +271,8 @@ OTHER_KINDS = {
     'repeat-huge': [raws('t = "ab" * B9223372036854775807\nr = t.len()')],
     'repeat-negative': [raws('t = "ab" * (0 - n)\nr = t.len()')],
     'nil-object-field': [raws('op: P17? = nil\nr = (get op).v')],
+    # the asserted value is not `true` (a missing key of a map of bools reads as nil): the assertion fails
+    'assert-nil:missing-key': [raws('mb = map[str, bool]\nmb["a"] = true\nassert mb["a"]\nassert mb["zz"]\nr = 1')],
     'filter-clears-list': [raws('fa: [int...] = [1, 2, 3]\nfb = fa.filter(fn(x: int) -> bool {\n  fa.clear()\n  return true\n})\nr = fb.len()', 1)],
     'index-of-maps': [raws('mm = map[str, int]\nml: [map[str, int]...] = [mm]\nio = ml.index_of(mm)\nr = 1')],
     'map-in-list-key': [raws('mm = map[str, int]\nkk = map[[map[str, int]...], int]\nkk[[mm]] = 1\nr = 1')],
@@ -857,6 +859,85 @@ def completed_block_cases():
     return out
 
 
+# ---------------------------------------------------------------- failures while a module is being imported
+# The top-level code of a module runs when the module is first imported; a failure there is a run-time failure like any
+# other: output up to it, exit 1, the report names the kind and (assert / get) the position in the MODULE's source, and the
+# trace lists the module's code on top of the importer's frames.  Fixed cases.
+IMPORT_FAILS = [("assert", "assert limit > 99", "assert", lambda ln: "lib.ms:%d:%d"), ("get-nil", "o: int? = nil\nv = get o", "unwrap_nil", None),
+                ("div-zero", "z = limit - limit\nv = limit / z", "err", None), ("index", "l: [int...] = [1]\nv = l[limit]", "err", None)]
+
+
+def import_time_cases():
+    out = []
+    for fid, stmt, rk, _ in IMPORT_FAILS:
+        for where in ("top-level", "in-block", "in-function-called-at-top-level"):
+            ind = {"top-level": "", "in-block": "  ", "in-function-called-at-top-level": "  "}[where]
+            body = "".join(ind + l + "\n" for l in stmt.split("\n"))
+            if where == "top-level":
+                lib = "print \"lib init\"\nlimit = 5\n" + body + "print \"lib never\"\nexport done: int = 1\n"
+                lib_frames = ["lib.mmm#__module__"]
+            elif where == "in-block":
+                lib = "print \"lib init\"\nlimit = 5\nif limit == 5 {\n" + body + "}\nprint \"lib never\"\nexport done: int = 1\n"
+                lib_frames = ["<if>", "lib.mmm#__module__"]
+            else:
+                lib = "print \"lib init\"\nlimit = 5\ncheck = fn() {\n" + body + "}\ncheck()\nprint \"lib never\"\nexport done: int = 1\n"
+                lib_frames = ["lib.mmm#__fn0", "lib.mmm#__module__"]
+            first = stmt.split("\n")[-1]
+            line = lib.split("\n").index(ind + first) + 1
+            col = len(ind) + 1 + (len("v = get ") if fid == "get-nil" else 0)       # an assert is reported at its own start, a get at its operand
+            for imp in ("module", "function", "block", "chain"):
+                if imp == "module":
+                    files = {"main.ms": "print \"main\"\nimport lib\nprint \"main never\"\n", "lib.ms": lib}
+                    frames = lib_frames + ["main.mmm#__module__"]
+                elif imp == "function":
+                    files = {"main.ms": "print \"main\"\nload = fn() {\n  import lib\n  print \"fn never\"\n}\nload()\nprint \"main never\"\n", "lib.ms": lib}
+                    frames = lib_frames + ["main.mmm#__fn0", "main.mmm#__module__"]
+                elif imp == "block":
+                    files = {"main.ms": "print \"main\"\nn = 3\nif n == 3 {\n  import lib\n  print \"block never\"\n}\nprint \"main never\"\n", "lib.ms": lib}
+                    frames = lib_frames + ["<if>", "main.mmm#__module__"]
+                else:
+                    files = {"main.ms": "print \"main\"\nimport mid\nprint \"main never\"\n", "mid.ms": "print \"mid init\"\nimport lib\nprint \"mid never\"\nexport m: int = 1\n", "lib.ms": lib}
+                    frames = lib_frames + ["mid.mmm#__module__", "main.mmm#__module__"]
+                exp_out = ["main"] + (["mid init"] if imp == "chain" else []) + ["lib init"]
+                out.append(("%s %s, imported from %s" % (fid, where, imp), files, exp_out, rk, "lib.ms:%d:%d" % (line, col), frames))
+    return out
+
+
+def run_import_time(ctx, binary, base):
+    cases = import_time_cases()
+
+    def one(c):
+        d = programs.materialize({"files": c[1]}, base)
+        r = programs.run_bin(binary, ["run", "main.ms", "-q"], d, timeout=30)
+        import shutil
+        shutil.rmtree(d, ignore_errors=True)
+        return r
+    n = 0
+    for (cid, files, exp_out, erk, pos, frames), (rc, out, err) in zip(cases, programs.pmap(one, cases)):
+        n += 1
+        if "Did not compile successfully" in err:
+            ctx.report("generator:rejected", "import-time case %s is rejected by the compiler: %s" % (cid, (out + err)[-300:]), {"files": files}, found_input=False)
+            continue
+        rk, detail, stack = vmtie.parse_real_error(err)
+        bad = None
+        if rc != 1 or "MSCRIPT INTERPRETER FATAL RUNTIME ERROR" not in err:
+            bad = "exit %d, %s" % (rc, "no run-time error report" if "FATAL RUNTIME ERROR" not in err else "")
+        elif lines_of(out) != exp_out:
+            bad = "printed %r, expected %r" % (lines_of(out), exp_out)
+        elif erk in ("assert", "unwrap_nil", "div_zero") and rk != erk:
+            bad = "the failure is reported as %s %s, it is %s" % (rk, str(detail)[:160], erk)
+        elif erk in ("assert", "unwrap_nil") and detail != pos:
+            bad = "the report names position %r, the failing statement is at %s" % (detail, pos)
+        elif [x for x in stack if not x.startswith("<native")] != frames:
+            bad = "trace %r, expected %r" % (stack, frames)
+        if bad:
+            ctx.report("import-time-failure", "a failure while a module is being imported (%s): %s" % (cid, bad),
+                       {"files": files, "entry": "main.ms", "expected_stdout": exp_out, "expected_kind": erk, "expected_position": pos, "expected_trace": frames,
+                        "observed_exit": rc, "observed_stdout": out[-400:], "observed_stderr": re.sub(r"\(\d+\) panicked", "panicked", err[-1400:]), "how": "mscript run main.ms -q"})
+    ctx.cov["import_time_failure_cases"] = n
+    return n
+
+
 def run_completed_blocks(ctx, binary, base):
     cases = completed_block_cases()
 
@@ -1003,6 +1084,7 @@ def run(ctx):
         judge(*one(b, timeout=300)[:4])
 
     n_cb = run_completed_blocks(ctx, binary, base)
+    n_cb += run_import_time(ctx, binary, base)
 
     # ---------------- native stack exhaustion (outside every model): observed
     def deep(n):
